@@ -180,3 +180,105 @@ def dominated(ctx: Ctx, fi: FunctionInfo, target: ast.AST, guards: list[ast.AST]
     if r & tgt:
         return False, path_text(cfg, fi, {cfg.entry}, tgt, avoid, avoid_edges)
     return True, []
+
+
+# ------------------------------------------------------------------------------------------
+# tiny symbolic-by-substitution evaluator: env maps the *text* of an expression to a value
+_CMP = {
+    ast.Eq: lambda a, b: a == b,
+    ast.NotEq: lambda a, b: a != b,
+    ast.Lt: lambda a, b: a < b,
+    ast.LtE: lambda a, b: a <= b,
+    ast.Gt: lambda a, b: a > b,
+    ast.GtE: lambda a, b: a >= b,
+    ast.Is: lambda a, b: a is b,
+    ast.IsNot: lambda a, b: a is not b,
+    ast.In: lambda a, b: a in b,
+    ast.NotIn: lambda a, b: a not in b,
+}
+_BIN = {
+    ast.Add: lambda a, b: a + b,
+    ast.Sub: lambda a, b: a - b,
+    ast.Mult: lambda a, b: a * b,
+    ast.FloorDiv: lambda a, b: a // b,
+    ast.Div: lambda a, b: a / b,
+    ast.Mod: lambda a, b: a % b,
+    ast.Pow: lambda a, b: a**b,
+    ast.LShift: lambda a, b: a << b,
+    ast.BitOr: lambda a, b: a | b,
+    ast.BitAnd: lambda a, b: a & b,
+}
+
+
+def mini_eval(e: ast.AST, env: dict[str, object]):
+    """Evaluate a side-effect-free expression, looking every sub-expression up in env by its text
+    first.  Raises AnalysisError on anything it cannot interpret (never guesses)."""
+    key = " ".join(ast.unparse(e).split())
+    if key in env:
+        return env[key]
+    if isinstance(e, ast.Constant):
+        return e.value
+    if isinstance(e, ast.Name):
+        raise AnalysisError(f"mini_eval: free name {e.id}")
+    if isinstance(e, ast.Tuple):
+        return tuple(mini_eval(x, env) for x in e.elts)
+    if isinstance(e, ast.List):
+        return [mini_eval(x, env) for x in e.elts]
+    if isinstance(e, ast.Subscript):
+        base = mini_eval(e.value, env)
+        s = e.slice
+        if isinstance(s, ast.Slice):
+            lo = mini_eval(s.lower, env) if s.lower else None
+            hi = mini_eval(s.upper, env) if s.upper else None
+            stp = mini_eval(s.step, env) if s.step else None
+            return base[lo:hi:stp]
+        return base[mini_eval(s, env)]
+    if isinstance(e, ast.UnaryOp):
+        v = mini_eval(e.operand, env)
+        if isinstance(e.op, ast.Not):
+            return not v
+        if isinstance(e.op, ast.USub):
+            return -v
+        if isinstance(e.op, ast.UAdd):
+            return +v
+    if isinstance(e, ast.BoolOp):
+        if isinstance(e.op, ast.And):
+            r = True
+            for v in e.values:
+                r = mini_eval(v, env)
+                if not r:
+                    return r
+            return r
+        r = False
+        for v in e.values:
+            r = mini_eval(v, env)
+            if r:
+                return r
+        return r
+    if isinstance(e, ast.Compare):
+        left = mini_eval(e.left, env)
+        for op, rr in zip(e.ops, e.comparators):
+            right = mini_eval(rr, env)
+            f = _CMP.get(type(op))
+            if f is None:
+                raise AnalysisError("mini_eval: unsupported comparison")
+            if not f(left, right):
+                return False
+            left = right
+        return True
+    if isinstance(e, ast.BinOp):
+        f = _BIN.get(type(e.op))
+        if f is None:
+            raise AnalysisError("mini_eval: unsupported operator")
+        return f(mini_eval(e.left, env), mini_eval(e.right, env))
+    if isinstance(e, ast.IfExp):
+        return mini_eval(e.body, env) if mini_eval(e.test, env) else mini_eval(e.orelse, env)
+    if isinstance(e, ast.Call) and isinstance(e.func, ast.Name) and e.func.id in ("min", "max", "len", "int", "float", "abs", "bool") and not e.keywords:
+        import builtins
+
+        return getattr(builtins, e.func.id)(*[mini_eval(a, env) for a in e.args])
+    raise AnalysisError(f"mini_eval: unsupported expression `{key[:80]}`")
+
+
+def txt(e: ast.AST) -> str:
+    return " ".join(ast.unparse(e).split())
